@@ -208,6 +208,7 @@ def inst (t : Ty) (v : Val) : Bool :=
   | .typ t => (match v with | .typ u => asg cfg sfh t u | _ => false)
   | .sensitive t => (match v with | .sensitive x => inst t x | _ => false)
   | .runtime _ _ _ => false       -- `RuntimeType.IsInstance`: only a *RuntimeValue, which the value language does not have
+  | .callable _ _ _ => false      -- `CallableType.IsInstance`: only a px.Lambda, which the value language does not have
   | .iterator _ => false          -- `IteratorType.IsInstance`: only a px.IteratorValue, which the value language does not have
   | .iterable t => (match elemType cfg sfh v with | some e => asg cfg sfh t e | none => false)
   | .object p =>
